@@ -459,6 +459,36 @@ def decorate(ctx, n, rng):
     ctx.count("elements_with_constructor_key_deleted", k)
 
 
+def edit_after_instancing(ctx, n, rng):
+    """Legal histories after which an instance's pins are NOT in the port order of its definition: ports reordered, a port
+    inserted in front, an earlier port widened - all on definitions that already have instances."""
+    k = 0
+    for l in n.libraries:
+        for d in l.definitions:
+            if not len(d.references) or len(d.ports) < 1 or rng.random() < 0.5:
+                continue
+            how = rng.randrange(3)
+            try:
+                if how == 0 and len(d.ports) >= 2:
+                    ps = list(d.ports)
+                    ps = ps[1:] + ps[:1]
+                    d.ports = ps
+                elif how == 1:
+                    p = sdn.Port("late_%d" % k, direction=sdn.IN)
+                    p.create_pins(rng.choice([1, 2]))
+                    d.add_port(p, position=0)
+                else:
+                    first = list(d.ports)[0]
+                    if len(first.pins) >= 1 and not (first.is_scalar and len(first.pins) == 1):
+                        first.create_pin()
+                    else:
+                        continue
+                k += 1
+            except (ValueError, AssertionError):
+                pass
+    ctx.count("definitions_edited_after_instancing", k)
+
+
 def leave_stragglers(ctx, n, rng):
     """Legal earlier history that leaves instances outside the netlist in the reference sets of its definitions: a
     definition that still has children removed from its library, a child removed from its parent, a free-standing
@@ -524,6 +554,8 @@ def run_case(ctx, i, rng):
     n = gen_ir.generate(rng, profile="any" if i % 2 else "edif", share=0.5, ndefs=rng.randint(3, 8),
                         top_child_ok=(i % 3 == 0), name_netlist=(i % 7 != 0))
     decorate(ctx, n, rng)
+    if i % 2 == 1:
+        edit_after_instancing(ctx, n, rng)
     keep = leave_stragglers(ctx, n, rng) if i % 2 == 0 else None
     st = gen_ir.shape_stats(n)
     r = check_netlist_clone(ctx, n, rng, st)
